@@ -4471,6 +4471,11 @@ func alwaysStores(p *Program, fn *ssa.Function) bool {
 }
 
 func checkStoreEveryRecord(p *Program, r *Report, rule string, names []string, floor int) {
+	checkStoreEveryRecordIf(p, r, rule, names, floor, nil)
+}
+
+// checkStoreEveryRecordIf: as checkStoreEveryRecord, restricted to the direct stores that keep satisfies.
+func checkStoreEveryRecordIf(p *Program, r *Report, rule string, names []string, floor int, keep func(cc *ssa.CallCommon) bool) {
 	n := 0
 	for _, name := range names {
 		fn := p.Func(name)
@@ -4482,9 +4487,11 @@ func checkStoreEveryRecord(p *Program, r *Report, rule string, names []string, f
 		for _, b := range fn.Blocks {
 			for _, in := range b.Instrs {
 				what := ""
-				if k, m, _ := storeCall(p, in); k != "" && m == "Put" {
-					what = k + ".Put"
-				} else if c, ok := in.(*ssa.Call); ok {
+				if k, m, cc := storeCall(p, in); k != "" && m == "Put" {
+					if keep == nil || keep(cc) {
+						what = k + ".Put"
+					}
+				} else if c, ok := in.(*ssa.Call); ok && keep == nil {
 					if callee := c.Common().StaticCallee(); callee != nil && callee.Pkg == p.SSA && alwaysStores(p, callee) {
 						what = p.FuncName(callee)
 					}
@@ -5321,48 +5328,7 @@ func checkRestoreTakesHeader(p *Program, r *Report, rule string, name string, fl
 		return
 	}
 	recv := fn.Params[0]
-	// values read off the stream: loads from a buffer that a stream read filled
-	buffers := map[ssa.Value]bool{}
-	for _, b := range fn.Blocks {
-		for _, in := range b.Instrs {
-			c, ok := in.(*ssa.Call)
-			if !ok {
-				continue
-			}
-			switch ioCallKind(p, c.Common()) {
-			case "fullread", "rawread":
-				for _, a := range c.Common().Args {
-					if base := bufferBase(a); base != nil {
-						buffers[base] = true
-					}
-				}
-			}
-		}
-	}
-	fromStream := func(v ssa.Value) bool {
-		return flowsFrom(v, func(x ssa.Value) bool {
-			u, ok := x.(*ssa.UnOp)
-			if !ok || u.Op != token.MUL {
-				return false
-			}
-			if ia, ok := u.X.(*ssa.IndexAddr); ok {
-				return buffers[bufferBase(ia.X)] || buffers[ia.X]
-			}
-			return false
-		}, 0, map[ssa.Value]bool{}) || flowsFrom(v, func(x ssa.Value) bool {
-			// binary.LittleEndian.Uint64(buf[:])
-			c, ok := x.(*ssa.Call)
-			if !ok {
-				return false
-			}
-			for _, a := range c.Common().Args {
-				if base := bufferBase(a); base != nil && buffers[base] {
-					return true
-				}
-			}
-			return false
-		}, 0, map[ssa.Value]bool{})
-	}
+	fromStream := streamValuePred(p, fn)
 	stores := map[string][]*ssa.Store{}
 	for _, b := range fn.Blocks {
 		for _, in := range b.Instrs {
@@ -6071,4 +6037,284 @@ func checkRootsFlaggedByConfiguration(p *Program, r *Report, rule string, name s
 		}
 	}
 	r.Floor(rule, "node stores of the from-roots constructor", n, 1)
+}
+
+// ---------------------------------------------------------------------------
+// R09m INGEST-STORES-EVERY-CALCULATED-NODE. Remembering a verified claim
+// stores every node the hashing core calculated for it - the targets, their
+// ancestors and the roots - with the keep flag of a target set. Leaving out
+// "what is there anyway" (the roots) leaves a target that is a root without
+// its flag: it is indexed, and pruned at the next addition.
+
+func checkIngestStoresEveryNode(p *Program, r *Report, rule string, core *ssa.Function) {
+	name := "(*MapPollard).ingest"
+	if p.Func(name) == nil || core == nil {
+		r.MissingAnchor(rule, name, "the storing function of the map forest (or the hashing core) not found")
+		return
+	}
+	fromCore := func(cc *ssa.CallCommon) bool {
+		if len(cc.Args) < 2 || !posKeyedIface(p, cc.Value.Type()) {
+			return false
+		}
+		for _, o := range structFieldOrigins(cc.Args[1], "Hash") {
+			if flowsFrom(o.val, func(v ssa.Value) bool {
+				c, ok := v.(*ssa.Call)
+				return ok && c.Common().StaticCallee() == core
+			}, 0, map[ssa.Value]bool{}) {
+				return true
+			}
+		}
+		return false
+	}
+	checkStoreEveryRecordIf(p, r, rule, []string{name}, 1, fromCore)
+}
+
+// ---------------------------------------------------------------------------
+// R09l PRUNE-CLIMBS-TO-THE-ROOT. Pruning a leaf walks from the leaf to the
+// root of its tree and lets the pruning primitive decide at every level. The
+// walk ends at the root and nowhere else: in particular not where nothing is
+// stored at the current position - a leaf remembered when it was added never
+// had its (computable) ancestors stored, yet the proof nodes beside them are.
+
+func checkPruneClimbsToRoot(p *Program, r *Report, rule string) {
+	entry := p.Func("(*MapPollard).Prune")
+	prim := p.Func("(*MapPollard).prunePosition")
+	if entry == nil || prim == nil {
+		r.MissingAnchor(rule, "(*MapPollard).Prune / prunePosition", "prune entry or the pruning primitive not found")
+		return
+	}
+	reach := p.StaticReach(entry)
+	reach[entry] = true
+	n := 0
+	for _, g := range sortedFuncs(p, reach) {
+		if g == prim || g.Blocks == nil {
+			continue
+		}
+		idx := 0
+		for _, sc := range callsIn(p, g) {
+			if sc.call.Common().StaticCallee() != prim {
+				continue
+			}
+			h := innermostLoopHeader(sc.call.Block())
+			if h == nil {
+				continue
+			}
+			idx++
+			n++
+			key := fmt.Sprintf("%s/climb#%d/ends-at-root", p.FuncName(g), idx)
+			loop := naturalLoop(h)
+			bad := ""
+			var at ssa.Instruction
+			for blk := range loop {
+				iff, ok := blk.Instrs[len(blk.Instrs)-1].(*ssa.If)
+				if !ok {
+					continue
+				}
+				exits := false
+				for _, s := range blk.Succs {
+					if !loop[s] {
+						exits = true
+					}
+				}
+				if !exits {
+					continue
+				}
+				if dependsOn(iff.Cond, func(v ssa.Value) bool {
+					ex, ok := v.(*ssa.Extract)
+					if !ok {
+						return false
+					}
+					c, ok := ex.Tuple.(*ssa.Call)
+					if !ok {
+						return false
+					}
+					k, m, _ := storeCall(p, c)
+					return k != "" && m == "Get"
+				}) {
+					bad, at = "the result of a look-up in the node store / leaf index", iff
+				}
+			}
+			if bad != "" {
+				r.Violate(rule, key, posOf(p, at), "the climb from the pruned leaf to its root can stop on "+bad+": a leaf remembered when it was added has no stored ancestors, so the climb ends after the first level and the proof nodes higher up stay stored for ever", "in "+p.FuncName(g))
+			} else {
+				r.Discharge(rule, key, posOf(p, sc.call), "no exit of the climb depends on what is stored", true)
+			}
+		}
+	}
+	r.Floor(rule, "climb loops around the pruning primitive", n, 1)
+}
+
+// streamValuePred: a predicate "v was read off the stream" for fn: v derives
+// from a load of a buffer that a stream read of fn filled, or from a decoding
+// call that is given such a buffer.
+func streamValuePred(p *Program, fn *ssa.Function) func(ssa.Value) bool {
+	// values read off the stream: loads from a buffer that a stream read filled
+	buffers := map[ssa.Value]bool{}
+	for _, b := range fn.Blocks {
+		for _, in := range b.Instrs {
+			c, ok := in.(*ssa.Call)
+			if !ok {
+				continue
+			}
+			switch ioCallKind(p, c.Common()) {
+			case "fullread", "rawread":
+				for _, a := range c.Common().Args {
+					if base := bufferBase(a); base != nil {
+						buffers[base] = true
+					}
+				}
+			}
+		}
+	}
+	return func(v ssa.Value) bool {
+		return flowsFrom(v, func(x ssa.Value) bool {
+			u, ok := x.(*ssa.UnOp)
+			if !ok || u.Op != token.MUL {
+				return false
+			}
+			if ia, ok := u.X.(*ssa.IndexAddr); ok {
+				return buffers[bufferBase(ia.X)] || buffers[ia.X]
+			}
+			return false
+		}, 0, map[ssa.Value]bool{}) || flowsFrom(v, func(x ssa.Value) bool {
+			// binary.LittleEndian.Uint64(buf[:])
+			c, ok := x.(*ssa.Call)
+			if !ok {
+				return false
+			}
+			for _, a := range c.Common().Args {
+				if base := bufferBase(a); base != nil && buffers[base] {
+					return true
+				}
+			}
+			return false
+		}, 0, map[ssa.Value]bool{})
+	}
+}
+
+// ---------------------------------------------------------------------------
+// R13n RECORD-FIELDS-RESTORED. The node record of the map forest carries the
+// hash and the keep flag. The restore loop stores, with every node, a keep
+// flag that was read off the stream: a flag left at its zero value restores a
+// forest that answers and proves like the original and then prunes the
+// siblings its remembered leaves need at the next block.
+
+func checkRecordFieldsRestored(p *Program, r *Report, rule string, entry string, floor int) {
+	e := p.Func(entry)
+	if e == nil {
+		r.MissingAnchor(rule, entry, "restore function not found")
+		return
+	}
+	n := 0
+	for _, fn := range sortedFuncs(p, p.Reach(e)) {
+		if fn.Blocks == nil || !p.owns(fn) {
+			continue
+		}
+		fromStream := streamValuePred(p, fn)
+		idx := 0
+		for _, b := range fn.Blocks {
+			for _, in := range b.Instrs {
+				k, m, cc := storeCall(p, in)
+				if k != "nodes" || m != "Put" || len(cc.Args) < 2 || innermostLoopHeader(b) == nil {
+					continue
+				}
+				st, ok := cc.Args[1].Type().Underlying().(*types.Struct)
+				if !ok {
+					continue
+				}
+				for f := 0; f < st.NumFields(); f++ {
+					if _, basic := st.Field(f).Type().Underlying().(*types.Basic); !basic {
+						continue
+					}
+					idx++
+					n++
+					key := fmt.Sprintf("%s/nodes.Put/%s/from-stream#%d", p.FuncName(fn), st.Field(f).Name(), idx)
+					got := false
+					for _, o := range structFieldOrigins(cc.Args[1], st.Field(f).Name()) {
+						v := o.val
+						if fromStream(v) {
+							got = true
+						}
+					}
+					if got {
+						r.Discharge(rule, key, posOf(p, in), "the field of the restored record is computed from bytes read off the stream", true)
+					} else {
+						r.Violate(rule, key, posOf(p, in), "the field "+st.Field(f).Name()+" of the node record is not restored from the stream (it keeps its zero value): the writer puts it on the wire, and the restored forest treats every node as not to be kept - it proves like the original until the next block prunes what its remembered leaves need", "in "+p.FuncName(fn))
+					}
+				}
+			}
+		}
+	}
+	r.Floor(rule, "scalar fields of the node records stored by the restore loop", n, floor)
+}
+
+// ---------------------------------------------------------------------------
+// R14l SUBTRACTION-NOT-SKIPPED. Combining two proofs removes from the merged
+// proof positions everything that is a target or computable in the union: a
+// proof hash of one proof can be a target of the other. A subtraction step of
+// the combining function may be skipped only when there is nothing to
+// subtract (a test of the length of the list being subtracted); any other
+// condition - "all targets are on the bottom row" - reasons about one proof
+// and is wrong across two.
+
+func checkSubtractionNotSkipped(p *Program, r *Report, rule string, name string, floor int) {
+	fn := p.Func(name)
+	if fn == nil {
+		r.MissingAnchor(rule, name, "proof combination not found")
+		return
+	}
+	n := 0
+	for _, sc := range callsIn(p, fn) {
+		callee := sc.call.Common().StaticCallee()
+		if callee == nil || !p.owns(callee) || !strings.HasPrefix(baseName(p.FuncName(callee)), "subtractSorted") {
+			continue
+		}
+		n++
+		key := fmt.Sprintf("%s->%s#%d/unconditional", name, baseName(p.FuncName(callee)), n)
+		args := sc.call.Common().Args
+		bad := ""
+		for _, g := range guardsAt(sc.call.Block()) {
+			// allowed: a test of the length of the subtracted list (or of the list subtracted from)
+			okGuard := dependsOn(g.Cond, func(v ssa.Value) bool {
+				c, isCall := v.(*ssa.Call)
+				if !isCall {
+					return false
+				}
+				if b, isB := c.Common().Value.(*ssa.Builtin); !isB || b.Name() != "len" {
+					// a Len() method of the struct of lists
+					if sc2 := c.Common().StaticCallee(); sc2 == nil || sc2.Name() != "Len" {
+						return false
+					}
+				}
+				for _, a := range c.Common().Args {
+					for _, x := range args {
+						if a == x || sameValue(a, x) {
+							return true
+						}
+					}
+				}
+				return false
+			})
+			onlyLen := okGuard && !dependsOn(g.Cond, func(v ssa.Value) bool {
+				c, isCall := v.(*ssa.Call)
+				if !isCall {
+					return false
+				}
+				if _, isB := c.Common().Value.(*ssa.Builtin); isB {
+					return false
+				}
+				sc2 := c.Common().StaticCallee()
+				return sc2 == nil || sc2.Name() != "Len"
+			})
+			if !onlyLen {
+				bad = "a condition that is not a test of the length of the subtracted list"
+			}
+		}
+		if bad != "" {
+			r.Violate(rule, key, posOf(p, sc.call), "this subtraction from the merged proof runs only under "+bad+": a proof hash of one proof can be a target (or computable) in the union even when the condition says there is nothing to do - the combined proof then carries hashes the canonical proof of the union does not have, and does not verify", "in "+name)
+		} else {
+			r.Discharge(rule, key, posOf(p, sc.call), "the subtraction runs on every path (or is skipped only when the subtracted list is empty)", true)
+		}
+	}
+	r.Floor(rule, "subtraction steps of the proof combination", n, floor)
 }
